@@ -9,13 +9,17 @@ def boolD (l : Line) (k : String) (d : Bool) : Bool := if has l k then bool l k 
 def reqOf (l : Line) : _root_.C06.Req :=
   { issuer := str l "r.iss", client := str l "r.client", subject := str l "r.sub", nonce := str l "r.nonce", authTime := int l "r.authtime",
     amr := list l "r.amr", scopes := list l "r.scopes", lifetime := int l "r.lifetime", skew := int l "r.skew",
-    assertUserinfo := bool l "r.assert", withAccessToken := bool l "r.withat" }
+    assertUserinfo := bool l "r.assert", withAccessToken := bool l "r.withat",
+    -- the granted scopes as the client's registration restricts them per token kind (absent on old lines: no restriction)
+    idScopes := if has l "r.idscopes" then list l "r.idscopes" else list l "r.scopes",
+    atScopes := if has l "r.atscopes" then list l "r.atscopes" else list l "r.scopes",
+    storageFillsID := bool l "r.fillsid", storageFillsAT := bool l "r.fillsat" }
 
 def obsOf (l : Line) : _root_.C06.Obs :=
   { flow := str l "flow", hasIDToken := bool l "o.idtoken", rpVerifies := bool l "o.rpverifies", idClaims := parseClaims l "c.", amr := list l "o.amr",
     cHashOK := boolD l "o.chash" true, atHashOK := boolD l "o.athash" true, userClaims := list l "o.userclaims", jwtAccessToken := bool l "o.jwtat", atVerifies := boolD l "o.atverifies" true,
     atClaims := { iss := str l "a.iss", sub := str l "a.sub" }, opaqueOK := boolD l "o.opaque" true, expiresInOK := boolD l "o.expiresin" true,
-    scopeOK := boolD l "o.scope" true }
+    scopeOK := boolD l "o.scope" true, atUserClaims := list l "o.atuserclaims" }
 
 def monitorLine (l : Line) : Option String :=
   if str l "obs" != "tokens" then none else
@@ -25,6 +29,6 @@ def monitorLine (l : Line) : Option String :=
   _root_.C06.judge r (obsOf l)
 
 def step (l : Line) : String :=
-  s!"case={str l "case"} class={str l "flow"}:{str l "alg"}:{str l "obs"}:{if bool l "o.jwtat" then "jwt" else "opaque"} model=- observed={str l "obs"} monitor={showMon (monitorLine l)} agree=1"
+  s!"case={str l "case"} class={str l "flow"}:{str l "alg"}:{str l "obs"}:{if bool l "o.jwtat" then "jwt" else "opaque"}:{str l "restrict"} model=- observed={str l "obs"} monitor={showMon (monitorLine l)} agree=1"
 
 end Drv.C06
